@@ -189,42 +189,7 @@ def run(ctx):
     ctx.floor("C02 cursor field stores", nw, 20)
 
     rn = P.fn("carquet_read_next_page", PR)
-    cz = Canon(rn, inline=False)
-    dec = [a for a in rn.body.walk() if a.k == "CompoundAssignOperator" and a.c[0].strip().k == "MemberExpr"
-           and a.c[0].strip().name in ("values_remaining", "page_values_read")]
-    deltas = {a.c[0].strip().name: (a.op, cz(a.c[1])) for a in dec}
-    okj = set(deltas) == {"values_remaining", "page_values_read"} and \
-        deltas["values_remaining"][0] == "-=" and deltas["page_values_read"][0] == "+=" and \
-        deltas["values_remaining"][1] == deltas["page_values_read"][1]
-    ctx.ob("R9.paired", "cursor-joint|%s:carquet_read_next_page" % PR, P.where(rn.body),
-           "values_remaining decreases by exactly what page_values_read increases", okj,
-           str({k: (v[0], show(v[1])) for k, v in deltas.items()}))
-    # the copied amount is min(max_values, available)
-    adv = [a for a in rn.body.walk() if a.k == "CompoundAssignOperator" and a.c[0].strip().k == "MemberExpr"
-           and a.c[0].strip().name == "current_page"]
-    okp = False
-    if len(adv) == 1:
-        t = cz(adv[0].c[1])
-        mem = sorted(s[2] for s in subtrees(t) if s[0] == "member")
-        okp = adv[0].op == "+=" and mem == ["page_compressed_size", "page_header_size"] and t[0] == "bin" and t[1] == "+"
-        # page_loaded cleared in the same block
-        blk = adv[0].parent
-        while blk is not None and blk.k != "CompoundStmt":
-            blk = blk.parent
-        okp = okp and blk is not None and any(
-            is_assign(x) and x.c[0].strip().k == "MemberExpr" and x.c[0].strip().name == "page_loaded" and x.c[1].cv == 0
-            for x in blk.walk())
-    ctx.ob("R9.paired", "page-advance|%s:carquet_read_next_page" % PR, P.where(rn.body),
-           "current_page advances by page_header_size + page_compressed_size, together with page_loaded = false", okp)
-    # the advance happens only when a page was loaded and fully consumed
-    if adv:
-        conds = []
-        for a in adv[0].ancestors():
-            if a.k == "IfStmt":
-                conds.append(src([x for x in a.c if x is not None][0]))
-        okc = any("page_loaded" in c for c in conds) and any("page_values_read" in c and "page_num_values" in c for c in conds)
-        ctx.ob("R9.paired", "page-advance-guard|%s:carquet_read_next_page" % PR, P.where(adv[0]),
-               "the page is stepped over only when it was loaded and fully consumed", okc, str(conds))
+    _page_cursor(ctx, rn)
     # set-form update in the batch reader's zero-copy branch
     bn = P.fn("carquet_batch_reader_next", BR)
     sets = [a for a in bn.body.walk() if is_assign(a) and a.op == "=" and a.c[0].strip().k == "MemberExpr"
@@ -293,3 +258,95 @@ def _names_assigned_from(fn, callee):
         elif is_assign(n) and any(c.k == "CallExpr" and c.callee == callee for c in n.c[1].walk()):
             out.append(src(n.c[0]))
     return out
+
+
+def _page_cursor(ctx, rn):
+    """carquet_read_next_page, executed abstractly over page states (nothing loaded / partly consumed /
+    fully consumed) x request sizes x which level arrays are wanted x a failing page load; the page loader
+    dispatcher and memcpy are hooked. What moves, and by how much, is read off the reader object."""
+    from ..rules import sem
+    P = ctx.P
+    P.fn("load_next_page", PR)
+    ro = sem.field_offsets(P, "carquet_column_reader")
+    phys = P.enum("carquet_physical_type")
+    VS = 8
+    verd = {"cursor-joint": None, "page-advance": None, "page-advance-guard": None, "copy-window": None, "load-failure": None}
+    n = 0
+    try:
+        for loaded, rd_, num in ((0, 0, 0), (1, 3, 10), (1, 10, 10), (1, 0, 10), (1, 12, 10)):
+            for maxv in (1, 4, 7, 100):
+                for wd, wr in ((1, 1), (0, 1), (1, 0), (0, 0)):
+                    for fail in (0, 1):
+                        n += 1
+                        heap0 = {("rd", f_["off"] // 8): 0 for f_ in P.record("carquet_column_reader")["fields"]
+                                 if f_.get("off") is not None and f_["n"] and "[" not in f_["t"]}
+                        heap0.update({("rd", ro["page_loaded"]): loaded, ("rd", ro["page_values_read"]): rd_, ("rd", ro["page_num_values"]): num,
+                                      ("rd", ro["page_header_size"]): 33, ("rd", ro["page_compressed_size"]): 444,
+                                      ("rd", ro["current_page"]): 5000, ("rd", ro["values_remaining"]): 900,
+                                      ("rd", ro["type"]): phys["CARQUET_PHYSICAL_INT64"], ("rd", ro["type_length"]): 0,
+                                      ("rd", ro["decoded_values"]): sem.Ptr("dv", 0, 1), ("rd", ro["decoded_def_levels"]): sem.Ptr("ddl", 0, 2),
+                                      ("rd", ro["decoded_rep_levels"]): sem.Ptr("drl", 0, 2)})
+
+                        def load(ev, a, it, fail=fail):
+                            ev.append(("load", it.heap.get(("rd", ro["current_page"])), it.heap.get(("rd", ro["page_loaded"]))))
+                            if fail:
+                                return 9
+                            it.heap[("rd", ro["page_loaded"])] = 1
+                            it.heap[("rd", ro["page_num_values"])] = 20
+                            it.heap[("rd", ro["page_values_read"])] = 0
+                            it.heap[("rd", ro["page_header_size"])] = 21
+                            it.heap[("rd", ro["page_compressed_size"])] = 210
+                            return 0
+                        hooks = {"load_next_page": load, "carquet_error_set": lambda ev, a, it: None,
+                                 "memcpy": lambda ev, a, it: ev.append(("copy", (a[0].base, a[0].off) if isinstance(a[0], sem.Ptr) else a[0],
+                                                                        (a[1].base, a[1].off) if isinstance(a[1], sem.Ptr) else a[1], a[2])) or a[0]}
+                        args = [sem.Ptr("rd", 0, 1), sem.Ptr("vals", 0, 1), maxv, sem.Ptr("defs", 0, 2) if wd else 0,
+                                sem.Ptr("reps", 0, 2) if wr else 0, sem.Ptr("nread", 0, 8), 0]
+                        ret, ev, heap = sem.run(P, rn, args, heap0=heap0, hooks=hooks, single=True, max_forks=64)
+                        sc = "page %s (%d of %d read), max_values %d, def %d rep %d%s" % (
+                            "loaded" if loaded else "not loaded", rd_, num, maxv, wd, wr, ", page load fails" if fail else "")
+                        consumed = bool(loaded and rd_ >= num)
+                        need_load = (not loaded) or consumed
+                        loads = [e for e in ev if e[0] == "load"]
+                        if bool(loads) != need_load or len(loads) > 1:
+                            verd["page-advance-guard"] = verd["page-advance-guard"] or "%s: %d page load(s)" % (sc, len(loads))
+                            continue
+                        if need_load:
+                            want_pos = 5000 + (33 + 444 if consumed else 0)
+                            if loads[0][1] != want_pos or loads[0][2] not in (0, None):
+                                verd["page-advance"] = verd["page-advance"] or (
+                                    "%s: the next page is loaded at chunk position %s with page_loaded = %s, expected %d / 0"
+                                    % (sc, loads[0][1], loads[0][2], want_pos))
+                        elif heap.get(("rd", ro["current_page"])) != 5000:
+                            verd["page-advance-guard"] = verd["page-advance-guard"] or "%s: current_page moved to %s" % (sc, heap.get(("rd", ro["current_page"])))
+                        if need_load and fail:
+                            if ret != 9 or [e for e in ev if e[0] == "copy"]:
+                                verd["load-failure"] = verd["load-failure"] or "%s: returns %s, copies %s" % (sc, ret, [e for e in ev if e[0] == "copy"])
+                            continue
+                        r0, n0 = (0, 20) if need_load else (rd_, num)
+                        k = min(maxv, n0 - r0)
+                        wantc = [("copy", ("vals", 0), ("dv", r0 * VS), k * VS)]
+                        if wd:
+                            wantc.append(("copy", ("defs", 0), ("ddl", r0 * 2), k * 2))
+                        if wr:
+                            wantc.append(("copy", ("reps", 0), ("drl", r0 * 2), k * 2))
+                        gotc = [e for e in ev if e[0] == "copy"]
+                        if ret != 0 or sorted(gotc) != sorted(wantc):
+                            verd["copy-window"] = verd["copy-window"] or "%s: returns %s, copies %s, expected %s" % (sc, ret, gotc, wantc)
+                        if heap.get(("rd", ro["page_values_read"])) != r0 + k or heap.get(("rd", ro["values_remaining"])) != 900 - k or \
+                                heap.get(("nread", 0)) != k:
+                            verd["cursor-joint"] = verd["cursor-joint"] or (
+                                "%s: page_values_read %s, values_remaining %s, *values_read %s after delivering %d"
+                                % (sc, heap.get(("rd", ro["page_values_read"])), heap.get(("rd", ro["values_remaining"])), heap.get(("nread", 0)), k))
+        what = {"cursor-joint": "values_remaining decreases by exactly what page_values_read increases, the count reported to the caller",
+                "page-advance": "a consumed page is stepped over by page_header_size + page_compressed_size, with page_loaded cleared, before the next one is loaded",
+                "page-advance-guard": "the page is stepped over, and a new one loaded, only when none is loaded or the loaded one is fully consumed",
+                "copy-window": "min(max_values, values left in the page) values and levels are copied from the page position, scaled by the value size",
+                "load-failure": "a failing page load is returned and nothing is copied"}
+        for k_, msg in verd.items():
+            ctx.ob("R9.paired", "%s|%s:carquet_read_next_page" % (k_, PR), P.where(rn.body),
+                   what[k_] + " (%d scenarios, abstract execution)" % n, msg is None, msg or "")
+    except (sem.Inconclusive, KeyError) as ex:
+        ctx.inconclusive("R9.paired", "page-cursor-trace|%s:carquet_read_next_page" % PR, P.where(rn.body),
+                         "abstract execution of carquet_read_next_page", "%s: %s" % (type(ex).__name__, ex))
+    ctx.floor("C02 page cursor scenarios", n, 100)
